@@ -210,7 +210,15 @@ pub fn replay(id: &str, path: &str) -> i32 {
                 1
             }
         }
-        "C05" | "C16" | "C09" | "C19" | "C13" | "C18" | "C07" => {
+        "C05" | "C16" | "C09" | "C19" | "C13" | "C18" | "C07"
+            if !match id {
+                // cases of these sections have no single-case entry: re-enumerate (below)
+                "C05" => case.get("ops").is_none(),
+                "C07" => case.get("history").is_none(),
+                "C19" => case["object"] == "harper_wasm::Linter",
+                _ => false,
+            } =>
+        {
             let problems = match id {
                 "C05" => crate::e2::replay_c05(case),
                 "C16" => crate::e2::replay_c16(case),
